@@ -192,6 +192,9 @@ type Machine struct {
 	access       map[raceKey]*accessRec
 	raceDetect    bool
 	noAdvanceNext bool
+	dialCalls     int
+	dialFails     int
+	dialSock      Value
 	timers        []*ChanObj
 	lastMarshal   Value
 	randN         int
